@@ -36,6 +36,10 @@ def generate(seed, tier):
     ops = []
     for _ in range(nops):
         m = r.random()
+        if m < 0.05 and ops:
+            # the model's parameters change between evaluations (training, loading): nothing may be remembered
+            ops.append({"op": "reparam", "pseed": P.s64(r), "scale": r.choice([0.1, 1.0, 3.0])})
+            continue
         if m < 0.25:
             n = r.randint(1, 24)
             chunks = []
@@ -134,12 +138,13 @@ def execute(plan):
 
     from qsim.seams.public import SampleCapture
     from qsim.seams.rng import RngSeam
-    from qsim.world import build_state
+    from qsim.world import build_state, randomise
 
     run = Run(plan)
     scfg = plan["config"]["state"]
     rng = RngSeam(run)
     counter = Counter()
+    obs_cache, sys_cache = {}, {}
     trace = [scfg["type"], scfg["nv"]]
     big_ops = 0
 
@@ -176,6 +181,10 @@ def execute(plan):
         rng.arm_global(plan["sub"])
         for j, op in enumerate(plan["ops"]):
             run.log.add("op", op["op"], j)
+            if op["op"] == "reparam":
+                randomise(state, op["pseed"], op["scale"])
+                trace.append("reparam")
+                continue
             if op["op"] == "merge":
                 try:
                     from qucumber.observables.utils import _update_statistics as upd
@@ -242,7 +251,7 @@ def execute(plan):
                 g = np.random.Generator(np.random.PCG64(op["dseed"]))
                 smp = torch.tensor(g.integers(0, 2, size=(op["n"], nv)).astype(np.float64), dtype=torch.double)
                 keep = smp.clone()
-                ob = make_obs(op["obs"][0], nv, counter)
+                ob = obs_cache.get(op["obs"][0]) or obs_cache.setdefault(op["obs"][0], make_obs(op["obs"][0], nv, counter))
                 try:
                     if op.get("system"):
                         from qucumber.observables import System
@@ -264,7 +273,8 @@ def execute(plan):
             # ---------------- statistics through sampling -----------------------
             names, obs = [], []
             for nm in op["obs"]:
-                ob = make_obs(nm, nv, counter)
+                # the same observable objects are reused by later operations of the run
+                ob = obs_cache.get(nm) or obs_cache.setdefault(nm, make_obs(nm, nv, counter))
                 if ob.name in [o.name for o in obs]:
                     continue  # a System keys observables by name; duplicate names are documented to conflict
                 names.append(nm)
@@ -290,7 +300,7 @@ def execute(plan):
                     if op["op"] == "sys_stats":
                         from qucumber.observables import System
 
-                        system = System(*obs)
+                        system = sys_cache.get(tuple(names)) or sys_cache.setdefault(tuple(names), System(*obs))
                         res = system.statistics(state, **kwargs)
                     else:
                         res = {obs[0].name: obs[0].statistics(state, **kwargs)}
@@ -387,6 +397,8 @@ def shrink(plan):
         q["config"]["state"].pop("na", None)
         out.append(q)
     for j, op in enumerate(plan["ops"]):
+        if op["op"] == "reparam":
+            continue
         if op["op"] == "merge":
             if len(op["chunks"]) > 1:
                 q = copy.deepcopy(plan)
